@@ -422,17 +422,35 @@ func applyReal(f *hclwrite.File, o *Op) {
 	case "SetAttributeValue":
 		body.SetAttributeValue(o.Name, o.val)
 	case "SetAttributeRaw":
-		body.SetAttributeRaw(o.Name, rawTokens())
+		// what is handed in stays the caller's: once the call has returned the caller
+		// overwrites its token slice (the scratch-buffer idiom); the file keeps what was set
+		toks := rawTokens()
+		body.SetAttributeRaw(o.Name, toks)
+		for i := range toks {
+			toks[i] = &hclwrite.Token{Type: hclsyntax.TokenIdent, Bytes: []byte("OVERWRITTEN_BY_THE_CALLER")}
+		}
 	case "SetAttributeTraversal":
-		body.SetAttributeTraversal(o.Name, travValue())
+		tr := travValue()
+		body.SetAttributeTraversal(o.Name, tr)
+		for i := range tr {
+			tr[i] = hcl.TraverseAttr{Name: "OVERWRITTEN_BY_THE_CALLER"}
+		}
 	case "RemoveAttribute":
 		body.RemoveAttribute(o.Name)
 	case "AppendNewBlock":
-		body.AppendNewBlock(o.Name, o.labels)
+		ls := append([]string{}, o.labels...)
+		body.AppendNewBlock(o.Name, ls)
+		for i := range ls {
+			ls[i] = "OVERWRITTEN_BY_THE_CALLER"
+		}
 	case "RemoveBlock":
 		body.RemoveBlock(body.Blocks()[o.Index])
 	case "SetLabels":
-		body.Blocks()[o.Index].SetLabels(o.labels)
+		ls := append([]string{}, o.labels...)
+		body.Blocks()[o.Index].SetLabels(ls)
+		for i := range ls {
+			ls[i] = "OVERWRITTEN_BY_THE_CALLER"
+		}
 	case "SetType":
 		body.Blocks()[o.Index].SetType(o.Name)
 	case "AppendNewline":
